@@ -242,10 +242,13 @@ func init() {
 		r := runHandleMessages(unixms(t[1]), bs, 0, 0)
 		return &Obs{Line: canonStream(r), Data: r, Panic: r.Panic}
 	}
-	// streamseg T f:<hex> j:<hex> c:<hex> t:<hex> … : a stream described by its segments
+	// streamseg T f:<hex> j:<hex> c:<hex> [o:<hex>] t:<hex> … : a stream described by its segments
 	opTable["streamseg"] = func(t []string) *Obs {
 		var bs []byte
 		for _, tok := range t[2:] {
+			if tok[0] == 'o' { // the intact form of the preceding corrupted frame: not part of the stream
+				continue
+			}
 			bs = append(bs, unhx(tok[2:])...)
 		}
 		r := runHandleMessages(unixms(t[1]), bs, 0, 0)
